@@ -13,3 +13,8 @@ claim('C11', 'ast writer/reader/constructor/equality field-set coherence over th
       'C11.e memoised hashes dropped by __getstate__; C11.f every cirq_type in the stored corpus resolvable; '
       'C11.h value_equality cache/pickle pairing and no late writes to equality fields',
       'value-level equality after round trip, numpy/pandas/sympy payload encodings, repr evaluation, qid ordering')
+claim('C12', 'ast field-set coherence of CircuitOperation (replace/eq/hash/JSON/repr), builder-through-replace rule, who-may-write, key-protocol child-coverage',
+      'C12.a no CircuitOperation field lost by replace/equality/hash/JSON/repr; C12.b every with_*/protocol method builds through replace(); '
+      'C12.c fields written only in __init__; C12.d key protocols of Moment/AbstractCircuit/wrappers visit every child via the protocol '
+      'function and classically-controlled ops cover conditions and sub-operation; C12.e parameter triple of CircuitOperation',
+      'equality with the unrolled circuit, key scoping semantics, repeat_until evaluation')
